@@ -949,10 +949,16 @@ coap_session_disconnected_lkd(coap_session_t *session, coap_nack_reason_t reason
 
   while (q) {
     if (q->session == session) {
-      /* Take the first one */
-      coap_handle_nack(session, q->pdu, reason, q->id);
-      sent_nack = 1;
-      break;
+      if (reason == COAP_NACK_ICMP_ISSUE) {
+        /* Take the first one */
+        coap_handle_nack(session, q->pdu, reason, q->id);
+        sent_nack = 1;
+        break;
+      } else if (q->pdu->type == COAP_MESSAGE_CON) {
+        /* Reported (once) by coap_cancel_session_messages() below */
+        sent_nack = 1;
+        break;
+      }
     }
     q = q->next;
   }
